@@ -546,7 +546,7 @@ fn compare(s: &str, r: &sas_lexer::LexResult) -> Vec<String> {
 
 pub fn run(cfg: &Config) -> PropRun {
     let ex = Explorer::new(cfg.threads, cfg.cap_s, if cfg.tier == Tier::Quick { 28 } else { 33 });
-    let mut sp = spaces::sigma_spaces(&["S5full", "dl"], cfg.tier);
+    let mut sp = spaces::sigma_spaces(&["S5full", "dl", "aliasopen"], cfg.tier);
     // every pair and triple of symbol characters (operators are where longest-match matters)
     let syms: Vec<&str> = vec![
         "*", "(", ")", "{", "}", "[", "]", "!", "¦", "|", "¬", "^", "~", "∘", "+", "-", "<", ">", ".", ",", ":", "=",
